@@ -46,9 +46,13 @@ class rule_020(Rule):
             lToi = oFile.get_function_subprogram_body()
             lReturn = []
             for oToi in lToi:
-                myToi = oToi.extract_token_and_n_tokens_before_it(token.subprogram_body.designator, 1)
+                iStart = oToi.get_index_of_last_token_matching(token.subprogram_body.end_keyword)
+                iEnd = oToi.get_index_of_last_token_matching(token.subprogram_body.semicolon)
+                myToi = oToi.extract_tokens(iStart, iEnd)
+                myToi = myToi.extract_token_and_n_tokens_before_it(token.subprogram_body.designator, 1)
                 if myToi is not None:
                     lReturn.append(myToi)
+            lReturn.sort(key=lambda oToi: oToi.get_start_index())
             return lReturn
         else:
             return oFile.get_function_subprogram_body()
